@@ -30,11 +30,13 @@ type Obligation struct {
 	Time   float64
 	Output string
 	Vacuity bool // an obligation that must NOT be provable (false-refutation guard)
+	Skolems []Term
 	dupOf   *Obligation
 }
 
 type collector struct {
 	written map[string]*writeRec
+	firstID int // objects with ID >= firstID were created inside the loop body being explored
 }
 
 type writeRec struct {
@@ -79,6 +81,8 @@ type Exec struct {
 	scriptNames map[string]bool
 	nameMemo map[string]memoEnt
 	freshCtx int
+	curSkolems []Term
+	assertsHit map[string]bool
 	qscript  []qline
 	qmu      sync.Mutex
 }
@@ -198,6 +202,11 @@ func (ex *Exec) oblige(st *State, kind, name string, goal Term, tags []string, p
 	}
 	o := &Obligation{Name: ex.rootKey + "@" + ex.p.cfgName + "#" + name, Kind: kind, Tags: tags, Func: ex.rootKey, Cfg: ex.p.cfgName,
 		Goal: goal, PC: st.pc, ScriptLen: len(ex.script), Pos: pos, Text: text, ex: ex}
+	for _, sk := range ex.curSkolems {
+		if strings.Contains(goal.S, sk.S) {
+			o.Skolems = append(o.Skolems, sk)
+		}
+	}
 	ex.obls = append(ex.obls, o)
 	// assert-then-assume
 	ex.assume(st.pc, goal)
@@ -565,6 +574,9 @@ func regionKey(l Loc) string {
 
 func (ex *Exec) record(l Loc, v *Val) {
 	for _, c := range ex.colls {
+		if l.Obj.ID >= c.firstID {
+			continue // object created inside the loop body: re-created in every iteration
+		}
 		k := l.Key()
 		r := c.written[k]
 		if r == nil {
@@ -755,6 +767,9 @@ func (ex *Exec) havocPrefix(st *State, o *Obj, prefix string, why string) {
 			nv = ex.shapeHavoc(st, o, lf.key, lf.typ, nm)
 		}
 		for _, c := range ex.colls {
+			if o.ID >= c.firstID {
+				continue
+			}
 			if c.written[full] == nil {
 				c.written[full] = &writeRec{loc: Loc{Obj: o}}
 			}
